@@ -3,6 +3,7 @@ package goat
 import (
 	"context"
 	"fmt"
+	"math"
 	"reflect"
 	"strconv"
 	"strings"
@@ -674,7 +675,17 @@ func parseGrpcTimeout(timeout string) (time.Duration, bool) {
 	}
 	suffix := timeout[len(timeout)-1]
 
-	val, err := strconv.ParseInt(timeout[:len(timeout)-1], 10, 64)
+	// TimeoutValue is one to eight ASCII digits: no sign, nothing longer.
+	digits := timeout[:len(timeout)-1]
+	if len(digits) < 1 || len(digits) > 8 {
+		return 0, false
+	}
+	for i := 0; i < len(digits); i++ {
+		if digits[i] < '0' || digits[i] > '9' {
+			return 0, false
+		}
+	}
+	val, err := strconv.ParseInt(digits, 10, 64)
 	if err != nil {
 		return 0, false
 	}
@@ -701,6 +712,10 @@ func parseGrpcTimeout(timeout string) (time.Duration, bool) {
 		return 0, false
 	}
 
+	// 99999999H does not fit a time.Duration: saturate instead of wrapping.
+	if val > int64(math.MaxInt64/unit) {
+		return time.Duration(math.MaxInt64), true
+	}
 	return time.Duration(val) * unit, true
 }
 
